@@ -39,6 +39,8 @@ class Disk:
         self.raw_max_write = raw_max_write
         self.frozen = False
         self.enospc_left = None  # bytes that still fit, None = unlimited
+        self.bad_paths = set()  # files that cannot be written any more (write_fail)
+        self.bad_errno = errno.EIO
         self.total_events = 0
         self.log = []  # events of the current operation
         self.counts = {EV_ANY: 0, EV_READ: 0, EV_WRITE: 0, EV_OPEN: 0, EV_STAT: 0}
@@ -56,6 +58,7 @@ class Disk:
         self.faults = list(faults)
         self.fired = []
         self.enospc_left = None
+        self.bad_paths = set()
         for f in self.faults:
             if f["kind"] == "enospc":
                 self.enospc_left = int(f["after_bytes"])
@@ -96,7 +99,7 @@ class Disk:
             elif k in ("eio_read", "short_read"):
                 if cls == EV_READ and f["at"] == idx_cls:
                     hit = f
-            elif k == "short_write":
+            elif k in ("short_write", "write_fail"):
                 if cls == EV_WRITE and f["at"] == idx_cls:
                     hit = f
             elif k == "open_fail":
@@ -105,6 +108,17 @@ class Disk:
             elif k == "stat_fail":
                 if cls == EV_STAT and f["at"] == idx_cls:
                     hit = f
+            elif k == "mutate":
+                # another process rewrites an input file right before this event: not an error, the operation goes on
+                if f["at"] == idx_any and f.get("_data") is not None:
+                    f["_done"] = True
+                    try:
+                        with REAL_OPEN(os.path.join(self.root, f["rel"]), "wb") as fh:
+                            fh.write(f["_data"])
+                        self.fired.append(("mutate", kind, f["rel"]))
+                        self.log.append(["mutate", f["rel"], 0, len(f["_data"]), None, "ok"])
+                    except OSError:
+                        pass
             if hit is not None:
                 break
         ev = [kind, self.rel(path), off, length, None, result]
@@ -355,6 +369,15 @@ class SimRaw(io.RawIOBase):
             if k == "short_write" and n > 1:
                 n = max(1, min(n - 1, int(hit.get("len", 1))))
                 ev[5] = "short"
+            if k == "write_fail":
+                # this file cannot grow any further (file-size limit, quota, bad block): the write and every later write to
+                # the same file fail, other files are not affected
+                d.bad_paths.add(self._path)
+        if self._path in d.bad_paths:
+            e = int((hit or {}).get("errno", errno.EIO)) if hit is not None and hit["kind"] == "write_fail" else d.bad_errno
+            d.bad_errno = e
+            d._finish(ev, result=errno.errorcode.get(e, str(e)), length=0)
+            raise OSError(e, os.strerror(e), self._path)
         if d.enospc_left is not None:
             if d.enospc_left <= 0 and n > 0:
                 d._finish(ev, result="ENOSPC", length=0)
